@@ -305,7 +305,7 @@ def jobs(tier):
             yield ('fold', dict(shape=i, learner=ln, alpha='1/10', temp=0, episodes=1, L=1 if quick else 2, qkind='table'), o)
             if i == 0:
                 yield ('fold', dict(shape=i, learner=ln, alpha='1', temp=0, episodes=1, L=2, eps_zero=True), o)
-                yield ('fold', dict(shape=i, learner=ln, alpha='1/2', temp=1, episodes=1, L=1 if quick else 2), dict(o, cost=5))
+                yield ('fold', dict(shape=i, learner=ln, alpha='1/2', temp=1, episodes=1, L=1 if (quick or ln == 'ExpectedSARSA') else 2), dict(o, cost=5))      # (expected SARSA at temperature 1, two steps: products of Exp terms the solver times out on)
             yield ('q_range', dict(shape=i, learner=ln, episodes=1, L=1 if quick else 2), o)
             if i in (0, 2):
                 yield ('retrain', dict(shape=i, learner=ln), o)
